@@ -161,6 +161,10 @@ def accessors(chk, drv):
             comm = MPI.COMM_WORLD
             h = getLayoutHandler(comm, lays, list(nprocs), eta)
             g = Grid(eta, [None] * nd, h, name, comm, allocateSaveMemory=True)
+            coords0 = tolist(h.mpiCoords)
+            if hist == 'readers':
+                # a caller that keeps and extends the list it was given (as Grid.getBlockForFig does) must not change the handler
+                h.mpiCoords.append(-7)
             if hist:
                 # the accessors must describe the CURRENT layout after any history of layout changes / save / restore
                 others = [n for n in lays if n != name]
@@ -182,7 +186,7 @@ def accessors(chk, drv):
             L = g.getLayout(name)
             r = np.random.RandomState(idx_seed + comm.Get_rank())
             idx = [int(r.randint(0, max(1, s))) for s in L.shape]
-            out = {'coords': tolist(h.mpiCoords), 'idx': idx, 'errors': []}
+            out = {'coords': tolist(h.mpiCoords), 'coords0': coords0, 'idx': idx, 'errors': []}
             # two answers of getGlobalIndices held at the same time (a table of local -> global indices built by the caller)
             idx2 = [int(r.randint(0, max(1, s_))) for s_ in L.shape]
             held = g.getGlobalIndices(*idx)
@@ -219,6 +223,10 @@ def accessors(chk, drv):
             c = dict(case, coords=o['coords'], idx=o['idx'])
             # --- oracle (no model): accessors agree with the partition
             now = {'starts': o['starts'], 'ends': o['ends'], 'shape': o['shape']}
+            if o['coords'] != o['coords0'] or len(o['coords']) != len(nprocs):
+                chk.fail('C02:mpiCoords-changed', 'the process coordinates advertised by the handler changed after calls that only read the grid '
+                         '(or do not have one entry per process direction)', c, o['coords0'], o['coords'])
+                continue
             if now != o['fresh']:
                 chk.fail('C02:layout-changed', 'after the history the layout object advertises another block than a freshly built one', c, o['fresh'], now)
                 continue
